@@ -8,8 +8,8 @@ use refmodel::tval::{TVal, directed_values};
 use serde_json::{Value, json};
 
 use crate::c01::{gen_seq, vals_from_json, vals_to_json};
-use crate::codecs::{ALL_BK, ALL_WP, BK, WP, len_fresh, write_seq, write_seq_sized};
-use crate::interp::Ops;
+use pcodec::codecs::{ALL_BK, ALL_WP, BK, WP, len_fresh, write_seq, write_seq_sized};
+use pcodec::interp::Ops;
 
 pub struct C04;
 
